@@ -211,6 +211,13 @@ def run(ctx):
 
     # the seen set and the task set are fresh per discovery run (instance attributes created in __init__)
     per_run_state(ctx, "C18.a")
+    # nothing cancels a recorded task: a cancelled per-host task makes the gather - and with it the whole run - fail with CancelledError
+    dpc = prog.cls("msmart.discover._DiscoverProtocol")
+    cancels = [(m_, n_) for m_ in dpc.methods.values() for n_ in ast.walk(m_.node)
+               if isinstance(n_, ast.Call) and isinstance(n_.func, ast.Attribute) and n_.func.attr == "cancel"]
+    ctx.ob("C18.a", dpc.qual, not cancels, "the discovery protocol cancels none of the per-host tasks it recorded", func=cancels[0][0].qual if cancels else dpc.qual, file=dpc.module.rel,
+           node=cancels[0][1] if cancels else None, construct="task.cancel()",
+           fail=(f"{cancels[0][0].qual} cancels recorded tasks: discover() gathers them afterwards and fails with CancelledError instead of reporting the hosts that answered") if cancels else "")
     # ---- C18.b ---------------------------------------------------------------------
     R = Raises(prog, Config(env=True, stop_at=[CONNECT]))
     data = Val(taint=True, kind="bytes")
